@@ -81,16 +81,18 @@ reg(Spec("C02", "Decoding arbitrary bytes is memory-safe and terminates", ["Asam
          predicate=gen_dec.pred_c02,
          partial="'returned packets own their data after the buffer / decoder is released' is about object lifetime; observed by the harness (exact-size heap input freed before packets are read back, decoder destroyed before the last read, all under ASan), not proved",
          rule="well-formed frames of every kind truncated at every offset and with every length/type/flag field corrupted, TECMP frames of all message types, random byte strings, histories; inputs live in exact-size heap blocks freed before the packets are read back, the decoder is destroyed before the last read; view = packet count, payload length and validity, sanitizer verdict"))
-reg(Spec("C04", "Decoded packets report exactly what is on the wire", ["AsamCmp.Props.C04"],
-         ["AsamCmp.C04.C04_wire", "AsamCmp.C04.C04_pad", "AsamCmp.C04.C04_truncate", "AsamCmp.C04.C04_invalid_marked"], ["AsamCmp.Props.C04"], gen_dec.gen_c04, predicate=gen_dec.pred_c04,
+reg(Spec("C04", "Decoded packets report exactly what is on the wire", ["AsamCmp.Props.C04", "AsamCmp.Props.GenChecks"],
+         ["AsamCmp.C04.C04_wire", "AsamCmp.C04.C04_pad", "AsamCmp.C04.C04_truncate", "AsamCmp.C04.C04_invalid_marked", "AsamCmp.GenChecks.rules_ok", "AsamCmp.GenChecks.enums_ok"],
+         ["AsamCmp.Props.C04", "AsamCmp.Props.GenChecks"], gen_dec.gen_c04, predicate=gen_dec.pred_c04,
          rule="frames built from the protocol table: 0..8 messages of all kinds, consistent and inconsistent inner lengths, error flags, every truncation, zero padding, prior history"))
-reg(Spec("C05", "Segmented messages reassemble under any interleaving", ["AsamCmp.Props.C05", "AsamCmp.Props.C05b"],
+reg(Spec("C05", "Segmented messages reassemble under any interleaving", ["AsamCmp.Props.C05", "AsamCmp.Props.C05b", "AsamCmp.Props.GenChecks"],
          ["AsamCmp.expected_payload", "AsamCmp.reassemble_single", "AsamCmp.reassemble_many", "AsamCmp.C05_interleaved", "AsamCmp.run_filter",
-          "AsamCmp.C05b.segFrame_parse", "AsamCmp.C05b.C05_bytes_single", "AsamCmp.C05b.decodeAll_state"], ["AsamCmp.Props.C05", "AsamCmp.Props.C05b"], gen_dec.gen_c05, predicate=gen_dec.pred_c05,
+          "AsamCmp.C05b.segFrame_parse", "AsamCmp.C05b.C05_bytes_single", "AsamCmp.C05b.decodeAll_state", "AsamCmp.C05b.reassembled_length_wraps",
+          "AsamCmp.GenChecks.validNext_ok"], ["AsamCmp.Props.C05", "AsamCmp.Props.C05b", "AsamCmp.Props.GenChecks"], gen_dec.gen_c05, predicate=gen_dec.pred_c05,
          rule="1..4 endpoints sharing device or stream ids, 2..6 segments of sizes {0,1,odd,max}, start counters incl. 65534/65535, trailing bytes, seeded order-preserving shuffles; all interleavings of two 3-frame streams"))
-reg(Spec("C06", "Loss, duplication or reordering never yields a corrupted packet", ["AsamCmp.Props.C06", "AsamCmp.Props.C06b"],
+reg(Spec("C06", "Loss, duplication or reordering never yields a corrupted packet", ["AsamCmp.Props.C06", "AsamCmp.Props.C06b", "AsamCmp.Props.GenChecks"],
          ["AsamCmp.fault_safe", "AsamCmp.C06_no_corruption", "AsamCmp.fault_recovery", "AsamCmp.fault_recovery_unseg", "AsamCmp.C06_no_corruption_interleaved", "AsamCmp.C06Example.nonvacuous",
-          "AsamCmp.C06b.C06_bytes", "AsamCmp.C06b.C06_recovery_bytes"], ["AsamCmp.Props.C06", "AsamCmp.Props.C06b"], gen_dec.gen_c06, predicate=gen_dec.pred_c06,
+          "AsamCmp.C06b.C06_bytes", "AsamCmp.C06b.C06_recovery_bytes", "AsamCmp.GenChecks.validNext_ok"], ["AsamCmp.Props.C06", "AsamCmp.Props.C06b", "AsamCmp.Props.GenChecks"], gen_dec.gen_c06, predicate=gen_dec.pred_c06,
          view=lambda c, l: l[-3:],
          rule="encoder output under fault scripts: single faults (drop/dup/swap/corrupt version/corrupt type) and random fault sequences, clean tail for recovery"))
 reg(Spec("C15", "TECMP messages convert to equivalent ASAM CMP packets", ["AsamCmp.Props.C15"],
@@ -110,7 +112,7 @@ reg(Spec("C11", "Setting a field changes that field and nothing else", ["AsamCmp
          rule="every class x every field x {all-zero, all-ones, 2 random} backgrounds x all in-range values (exhaustive for fields <= 8 bits quick / <= 16 bits thorough, boundary + random for wider), chains of 1..8 sets; non-trivial = non-zero background or chain; predicate: raw bytes = background with exactly the written bit ranges replaced, every getter = table read",
          assumptions=["float fields travel as 32-bit patterns; NaN patterns are excluded from generation"]))
 reg(Spec("C12", "Headers and payload fields use the ASAM CMP / TECMP wire layout", ["AsamCmp.Props.C11", "AsamCmp.Props.GenChecks"],
-         ["AsamCmp.C11.get_is_be", "AsamCmp.C11.set_is_be", "AsamCmp.C11.defaults_ok", "AsamCmp.C11.C11_all_classes", "AsamCmp.C11.tables_wf", "AsamCmp.GenChecks.sizes_ok", "AsamCmp.GenChecks.offsets_ok", "AsamCmp.GenChecks.masks_ok", "AsamCmp.GenChecks.enums_ok"], ["AsamCmp.Props.C11", "AsamCmp.Props.GenChecks"], gen_fld.gen_c12, predicate=gen_fld.pred_c11,
+         ["AsamCmp.C11.get_is_be", "AsamCmp.C11.set_is_be", "AsamCmp.C11.defaults_ok", "AsamCmp.C11.C11_all_classes", "AsamCmp.C11.tables_wf", "AsamCmp.GenChecks.sizes_ok", "AsamCmp.GenChecks.offsets_ok", "AsamCmp.GenChecks.masks_ok", "AsamCmp.GenChecks.enums_ok", "AsamCmp.GenChecks.rules_ok"], ["AsamCmp.Props.C11", "AsamCmp.Props.GenChecks"], gen_fld.gen_c12, predicate=gen_fld.pred_c11,
          rule="default-constructed objects; bytes laid out by hand from the protocol table read through every getter; every field written through the API on a default object compared with the table's big-endian position",
          assumptions=["float fields travel as 32-bit patterns; NaN patterns are excluded from generation"]))
 
